@@ -79,12 +79,14 @@ class IdDeduplicatingTrialLoader(serializable.PartiallySerializable):
 
   def get_newly_completed_trials(self, max_trial_id: int) -> Sequence[vz.Trial]:
     """Returns trials completed between the last call and max_trial_id."""
-    if len(self._incorporated_completed_trial_ids) == max_trial_id:
-      # no trials need to be loaded.
-      return []
     all_trial_ids = set(range(1, max_trial_id + 1))
     # Exclude completed trials that were already passed to the designer.
     trial_ids_to_load = all_trial_ids - self._incorporated_completed_trial_ids
+    if not trial_ids_to_load:
+      # no trials need to be loaded. (Comparing the number of incorporated ids
+      # with max_trial_id is not enough: ids of trials that were deleted since
+      # may lie above max_trial_id.)
+      return []
     new_trials = self._supporter.GetTrials(
         trial_ids=trial_ids_to_load,
         status_matches=vz.TrialStatus.COMPLETED,
